@@ -64,6 +64,9 @@ M = [
  ('m-c19-maxconn', 'C19', [('src/ssh_audit/dheat.py', " and (num_attempted_connections < max_connections):", " and (num_attempted_connections < max_connections * 4):")], 'rate test attempts 4x the limit'),
  ('m-c19-concurrency', 'C19', [('src/ssh_audit/ssh_audit.py', "dh_rate_test_notes = DHEat.dh_rate_test(out, aconf, kex, 1.5, 38, 3)", "dh_rate_test_notes = DHEat.dh_rate_test(out, aconf, kex, 1.5, 38, 6)")], '6 concurrent sockets in the rate test'),
  ('m-c19-rate-when-skipped', 'C19', [('src/ssh_audit/ssh_audit.py', "                if aconf.skip_rate_test:", "                if aconf.skip_rate_test and aconf.policy is None:")], 'policy audits run the rate test although --skip-rate-test was given'),
+ # ---- the accept side of a client audit (round 13)
+ ('m-c09-accept-no-timeout', 'C09', [('src/ssh_audit/ssh_socket.py', "            if self.__timeout_set and time_elapsed >= self.__timeout:\n                print(\"Timeout elapsed.  Terminating...\")", "            if self.__timeout_set and time_elapsed >= self.__timeout and len(fds[0]) > 0:\n                print(\"Timeout elapsed.  Terminating...\")")], 'a client audit with -t waits for ever when no client connects (the give-up test can never be true)'),
+ ('m-c09-bind-v6-fatal', 'C09', [('src/ssh_audit/ssh_socket.py', "            print(\"Warning: failed to listen on any IPv6 interfaces: %s\" % str(e), file=sys.stderr)\n", "            print(\"Warning: failed to listen on any IPv6 interfaces: %s\" % str(e), file=sys.stderr)\n            raise\n")], 'a host without IPv6 cannot audit clients at all: the bind failure is re-raised (status 255)'),
  # ---- synchronisation (round 12): the lock objects are simulator objects (simaudit/sync.py)
  ('m-c08-lock-leak', 'C08', [('src/ssh_audit/ssh2_kexdb.py', "    @staticmethod\n    def get_db() ->", "    _LOCK = threading.Lock()\n\n    @staticmethod\n    def get_db() ->"),
                               ('src/ssh_audit/ssh2_kexdb.py', "        if calling_thread_id not in SSH2_KexDB.DB_PER_THREAD:\n            SSH2_KexDB.DB_PER_THREAD[calling_thread_id] = copy.deepcopy(SSH2_KexDB.MASTER_DB)\n\n        return", "        SSH2_KexDB._LOCK.acquire()\n        if calling_thread_id not in SSH2_KexDB.DB_PER_THREAD:\n            SSH2_KexDB.DB_PER_THREAD[calling_thread_id] = copy.deepcopy(SSH2_KexDB.MASTER_DB)\n        SSH2_KexDB._LOCK.release()\n\n        return"),
